@@ -107,6 +107,8 @@ type faultSpec struct {
 	// as a remote or hardware-backed account may)
 	lockStateFail bool
 	signFail    map[int]bool
+	// rulesShort k > 0: the list RunRules hands the signer is cut to its first k verdicts (after the rules ran)
+	rulesShort int
 }
 
 func parseFaults(s string) *faultSpec {
@@ -133,6 +135,12 @@ func parseFaults(s string) *faultSpec {
 		case strings.HasPrefix(tok, "g"):
 			i, _ := strconv.Atoi(tok[1:])
 			f.signFail[i] = true
+		case strings.HasPrefix(tok, "r"):
+			i, err := strconv.Atoi(tok[1:])
+			if err != nil || i <= 0 {
+				panic("bad fault " + tok)
+			}
+			f.rulesShort = i
 		default:
 			panic("bad fault " + tok)
 		}
@@ -141,5 +149,5 @@ func parseFaults(s string) *faultSpec {
 }
 
 func (f *faultSpec) any() bool {
-	return len(f.fetchFail) > 0 || f.storeFail || f.storeBlocked || f.storeClosing || f.lockStateFail || len(f.signFail) > 0
+	return len(f.fetchFail) > 0 || f.storeFail || f.storeBlocked || f.storeClosing || f.lockStateFail || len(f.signFail) > 0 || f.rulesShort > 0
 }
